@@ -169,3 +169,32 @@ def call_by_contract(ctx, it, name, pre, havoc, post, result=None):
     for f in post():
         ctx.assume(f)
     return result() if result is not None else NONE
+
+
+class LeanUnit(Unit):
+    """A meta-lemma checked by Lean 4 (+ Mathlib): one obligation per file, discharged iff `lean`
+    accepts the file and the source contains no sorry / admit / extra axiom."""
+
+    def __init__(self, label, path, theorems):
+        self.label = label
+        self.path = path
+        self.theorems = theorems
+
+    def generate(self):
+        import os, re, subprocess, time
+        here = os.path.dirname(os.path.dirname(os.path.abspath(__file__)))
+        full = os.path.join(here, self.path)
+        src = open(full).read()
+        t0 = time.time()
+        bad = re.findall(r"\b(sorry|admit|axiom|unsafe|implemented_by)\b", src)
+        try:
+            p = subprocess.run(["lean", full], capture_output=True, text=True, timeout=900,
+                               cwd=os.path.dirname(full))
+            ok = p.returncode == 0 and not bad and "warning" not in p.stdout.lower()
+            out = (p.stdout + p.stderr)[-1500:]
+        except Exception as ex:   # lean missing / timeout: undecided, never a violation
+            ok, out = None, str(ex)
+        ob = Obligation("%s/lean-accepts[%s]" % (self.label, ",".join(self.theorems)), [], z3.BoolVal(True))
+        ob.external = {"ok": ok, "seconds": time.time() - t0, "backend": "lean 4 + Mathlib", "output": out,
+                       "forbidden_tokens": bad}
+        return [], [ob], {"lemma": self.label, "file": self.path, "theorems": self.theorems}
